@@ -7,6 +7,7 @@ package main
 import (
 	"context"
 	"fmt"
+	"sort"
 	"strings"
 	"sync"
 	"time"
@@ -201,4 +202,102 @@ func unitC13disc(e common.Env, p *common.Part) {
 			p.Sample(map[string]interface{}{"tile": k, "first_ids": ids[:4], "completions": comp})
 		}
 	}
+}
+
+// unitC13views: views are compared, not only encoded and decoded. Sessions over identifier families whose members a sloppy
+// comparison could confuse (UTF-16 surrogate range and U+FFFD, same low byte, same high byte, byte-swapped pairs, decimal digits
+// that can be split elsewhere): (a) honest members only, one more than expected, started in PRNG order with PRNG delays, so that
+// equal-length views that differ in exactly such identifiers meet; (b) the Byzantine plan of C07 that announces confusable views.
+func unitC13views(e common.Env, p *common.Part) {
+	p.Rule = "disc sessions of real disc.Member objects over confusable identifier families (both in 0xD800..0xDFFF or 0xFFFD; x and x+k*256; x and x^k with k<256; x and its byte-swapped value; d1,d2d3 vs d1d2,d3): (a) three honest members with expected = 2, staggered by PRNG delays of 0..3 ms, (b) a Byzantine member announcing the destination's own list with entries replaced by their confusable twins; oracle: the validity, agreement and two-outcome oracles of C07; distinct key = (kind, family, identifiers, seed); non-trivial always"
+	n := e.Pick(240, 6000)
+	for i := 0; i < n; i++ {
+		if !e.Mine(i) || p.ViolationCount() >= 3 {
+			continue
+		}
+		rng := e.Rng("c13views", i)
+		if i%4 == 3 {
+			key := fmt.Sprintf("confusable-views #%d", i)
+			p.Begin(key)
+			r := runByzPlan("confusable-views", i, rng)
+			sig, what := c07judge(r.net, r.expected)
+			p.Case(key, true)
+			p.Count("byz_sessions", 1)
+			if sig != "" {
+				p.Violate(sig+"/confusable-views", key+" ("+r.note+"): "+what, map[string]interface{}{"index": i, "note": r.note})
+			}
+			r.net.close()
+			continue
+		}
+		family := []string{"surrogates", "low-byte", "high-byte", "byte-swap", "digits"}[i%5]
+		var ids []uint16
+		switch family {
+		case "surrogates":
+			for len(ids) < 3 {
+				v := uint16(0xD800 + rng.Intn(0x800))
+				if rng.Intn(6) == 0 {
+					v = 0xFFFD
+				}
+				ids = appendUnique(ids, v)
+			}
+		case "low-byte":
+			x := uint16(rng.Intn(0x4000))
+			ids = []uint16{x, x + 0x100*uint16(1+rng.Intn(60)), x + 0x100*uint16(61+rng.Intn(60))}
+		case "high-byte":
+			x := uint16(rng.Intn(0xff00)) &^ 0xff
+			for len(ids) < 3 {
+				ids = appendUnique(ids, x|uint16(rng.Intn(256)))
+			}
+		case "byte-swap":
+			x := uint16(0x0100 + rng.Intn(0xfe00))
+			for x<<8|x>>8 == x {
+				x++
+			}
+			ids = []uint16{x, x<<8 | x>>8}
+			for len(ids) < 3 {
+				ids = appendUnique(ids, uint16(rng.Intn(65536)))
+			}
+		default:
+			d1, d2, d3 := uint16(1+rng.Intn(9)), uint16(1+rng.Intn(9)), uint16(1+rng.Intn(9))
+			ids = appendUnique(appendUnique(appendUnique(nil, d1), d2*10+d3), d1*10+d2)
+			for len(ids) < 3 {
+				ids = appendUnique(ids, d3+uint16(rng.Intn(3)))
+			}
+		}
+		key := fmt.Sprintf("honest surplus %s %v #%d", family, ids, i)
+		p.Begin(key)
+		universe := append([]uint16{}, ids...)
+		sort.Slice(universe, func(a, b int) bool { return universe[a] < universe[b] })
+		net := newDnet(universe, rng)
+		net.maxDelay = time.Duration(100+rng.Intn(1500)) * time.Microsecond
+		ctx, cancel := context.WithTimeout(context.Background(), time.Duration(40+rng.Intn(40))*time.Millisecond)
+		var wg sync.WaitGroup
+		rng.Shuffle(len(ids), func(a, b int) { ids[a], ids[b] = ids[b], ids[a] })
+		for _, id := range ids {
+			net.start(ctx, &wg, net.add(id, "honest", true), topicFor("c13views", i), 2, time.Duration(300+rng.Intn(1500))*time.Microsecond)
+			time.Sleep(time.Duration(rng.Intn(3000)) * time.Microsecond)
+		}
+		wg.Wait()
+		cancel()
+		sig, what := c07judge(net, 2)
+		p.Case(key, true)
+		p.Count("honest_surplus_sessions", 1)
+		p.Count("completions", int64(honestCompletions(net)))
+		if sig != "" {
+			p.Violate(sig+"/honest-surplus/"+family, key+": "+what, map[string]interface{}{"ids": ids, "family": family})
+		}
+		net.close()
+		if i%31 == 0 {
+			p.Sample(map[string]interface{}{"case": key})
+		}
+	}
+}
+
+func appendUnique(l []uint16, v uint16) []uint16 {
+	for _, x := range l {
+		if x == v {
+			return l
+		}
+	}
+	return append(l, v)
 }
